@@ -67,7 +67,7 @@ def run_semantic(pkg):
             for m_ in re.finditer(r"(len\(\.\.\.\)|a collection size|an iteration counter)[^;]*?(?:compared with|modulo / divided by) (\d+)", r.get("detail", "")):
                 (iter_c if "iteration" in m_.group(1) else size_c).add(int(m_.group(2)))
     size_c = sorted(c for c in size_c if 2 <= c <= 120)[:2]
-    iter_c = sorted(c for c in iter_c if 1 <= c <= 3)[:2]
+    iter_c = sorted(c for c in iter_c if 1 <= c <= 12)[:2]
     if size_c or iter_c:
         only_thresholds = all(r.get("status") != "error" or "a finite scenario cannot speak for larger inputs" in r.get("detail", "") for r in results)
         if only_thresholds:
@@ -95,6 +95,15 @@ PROP_KINDS = {
     "C15": {"fixed"},
 }
 
+
+# typestate findings that are facts about what a statement *does* (from the effect analysis), not about how the loop is written: a
+# pose mutated in place or written outside the boxplus update, the solver's step rescaled.  They stand even when the translation of
+# optimize() is undecided; every other typestate finding is then undecided too.
+STRONG_TYPESTATE_KEYS = ("C03-d/update-loop-extra", "C03-d/no-other-pose-write", "C03-d/step-modified",
+                         "C04-ii/C03-d/update-loop-extra", "C04-ii/C03-d/no-other-pose-write", "C04-ii/C03-d/step-modified",
+                         "C07-structure/C03-d/update-loop-extra", "C07-structure/C03-d/no-other-pose-write", "C07-structure/C03-d/step-modified",
+                         "C11-Q2/C03-d/update-loop-extra", "C11-Q2/C03-d/no-other-pose-write", "C11-Q2/C03-d/step-modified",
+                         "C06-d/optimize/pose-write")
 
 # scenarios that exist for one clause of one property: any deviation on them breaks that property
 PROP_SCENARIOS = {"C08": ("twin-graph",)}
@@ -150,8 +159,11 @@ def optimize_verdicts(run_, pkg, prop, select, rule_sem=None):
         elif all_ok:
             overridden += 1
             run_.note("typestate finding %s not believed (every translated run of optimize() agrees with the reference semantics): %s" % (key, f.what[:160]))
-        elif getattr(f, "undecided", False):
-            run_.error("%s: %s (and the translation of optimize() is undecided)" % (key, f.what[:200]))
+        elif getattr(f, "undecided", False) or (not any(x["status"] == "violation" for x in sem) and not f.key.startswith(STRONG_TYPESTATE_KEYS)):
+            # the translation of optimize() is undecided (a construct outside the modelled fragment) and the typestate, whose
+            # recognisers know only some ways of writing the loop, objects: that is no verdict either way
+            run_.error("%s: %s (typestate finding; the translation of optimize() is undecided: %s)" % (
+                key, f.what[:200], "; ".join("%s: %s" % (x["name"], x["detail"][:80]) for x in sem if x["status"] == "error")[:200]))
         else:
             n += 1
             run_.violation(key, rule, f.what, where=f.where)
